@@ -141,6 +141,59 @@ mod verif_battery_c19_log {
 }
 '''
 
+C19_RESTART = '''
+#[cfg(test)]
+mod verif_battery_c19_restart {
+    use super::*;
+    #[test]
+    fn c19_log_size_limit_holds_across_restarts() {
+        let dir = std::env::temp_dir().join(format!("verif_c19_restart_{}", std::process::id()));
+        let _ = std::fs::remove_dir_all(&dir);
+        let line = "x".repeat(56);
+        for run in 0..6 {
+            // every run finds the files left by the earlier runs and writes less than the limit itself
+            let logger = RollingLogger::create_new(dir.clone(), String::from("verif"), 200, 4);
+            for step in 0..2 {
+                logger.write(log::Level::Info, line.clone()).unwrap();
+                std::thread::sleep(std::time::Duration::from_millis(2));
+                for e in std::fs::read_dir(&dir).unwrap().flatten() {
+                    let len = e.metadata().unwrap().len();
+                    assert!(len <= 200 + 200, "run {} step {}: {:?} is {} bytes with a limit of 200 and writes of ~100 bytes", run, step, e.path(), len);
+                }
+                assert!(std::fs::read_dir(&dir).unwrap().count() <= 4);
+            }
+        }
+        let _ = std::fs::remove_dir_all(&dir);
+    }
+}
+'''
+
+C19_EVENTS = '''
+#[cfg(test)]
+mod verif_battery_c19_events {
+    /// uses the process-wide event queue: run alone (own cargo invocation with this module's name as the filter)
+    #[tokio::test]
+    async fn c19_event_folder_cap_holds_for_bursts() {
+        let root = std::env::temp_dir().join(format!("verif_c19_events_{}", std::process::id()));
+        let _ = std::fs::remove_dir_all(&root);
+        let events_dir = root.join("Events");
+        let cap = 3usize;
+        let d = events_dir.clone();
+        tokio::spawn(async move { super::start(d, std::time::Duration::from_millis(100), cap, |_| async {}).await; });
+        for burst in [150, 250, 250, 250, 1200] {
+            for _ in 0..burst {
+                super::write_event(log::Level::Info, "verif burst event".to_string(), "c19_event_folder_cap_holds_for_bursts", "verif", "verif_c19_events");
+            }
+            tokio::time::sleep(std::time::Duration::from_millis(500)).await;
+            let n = crate::misc_helpers::get_files(&events_dir).map(|f| f.len()).unwrap_or(0);
+            assert!(n <= cap, "after a burst of {} events the event folder holds {} files, cap is {}", burst, n, cap);
+        }
+        super::stop();
+        let _ = std::fs::remove_dir_all(&root);
+    }
+}
+'''
+
 C19_AGENT = '''
 #[cfg(test)]
 mod verif_battery_c19_dumps {
@@ -356,14 +409,153 @@ fn c17_files_are_replaced_only_while_the_service_is_stopped() {
 }
 '''
 
+# C12, sink level: the REAL poll loop (KeyKeeper::poll_secure_channel_status) runs against a scripted host; afterwards every file
+# the agent wrote outside the key store (its log folders, the test binary's logger folder, event files), the KeyKeeper status
+# message and the provision error text are searched for the key values that the host handed out.
+C12_LOOP = r'''
+#[cfg(test)]
+#[cfg(not(windows))]
+mod verif_battery_c12_loop {
+    use super::*;
+    use hyper::server::conn::http1;
+    use hyper::service::service_fn;
+    use hyper::{Request, Response, StatusCode};
+    use hyper_util::rt::TokioIo;
+    use std::os::unix::fs::PermissionsExt;
+    use std::path::{Path, PathBuf};
+    use std::sync::{Arc, Mutex};
+
+    #[derive(Clone)]
+    struct Script { status_body: String, key_body: String, attest_status: u16 }
+    const G1: &str = "c12c12c1-2c12-4c12-8c12-c12c12c12c01";
+    const G2: &str = "c12c12c1-2c12-4c12-8c12-c12c12c12c02";
+    fn status_doc(key_guid: Option<&str>) -> String {
+        format!(r#"{{"authorizationScheme": "Azure-HMAC-SHA256", "keyDeliveryMethod": "http", "keyGuid": {}, "requiredClaimsHeaderPairs": ["isRoot"], "secureChannelState": "Wireserver", "version": "1.0"}}"#,
+            match key_guid { Some(g) => format!("\"{}\"", g), None => "null".to_string() })
+    }
+    fn key_doc(guid: &str, value: &str) -> String {
+        format!(r#"{{"authorizationScheme": "Azure-HMAC-SHA256", "guid": "{}", "issued": "2021-05-05T12:00:00Z", "key": "{}"}}"#, guid, value)
+    }
+    async fn start_host(script: Arc<Mutex<Script>>, token: CancellationToken) -> u16 {
+        let listener = tokio::net::TcpListener::bind("127.0.0.1:0").await.unwrap();
+        let port = listener.local_addr().unwrap().port();
+        tokio::spawn(async move {
+            loop {
+                tokio::select! {
+                    _ = token.cancelled() => return,
+                    r = listener.accept() => {
+                        let (stream, _) = match r { Ok(x) => x, Err(_) => return };
+                        let script = script.clone();
+                        tokio::spawn(async move {
+                            let service = service_fn(move |req: Request<hyper::body::Incoming>| { let script = script.clone(); async move {
+                                let sc = script.lock().unwrap().clone();
+                                let path = req.uri().path().to_string();
+                                let (status, body) = if path == "/secure-channel/status" { (200u16, sc.status_body) }
+                                    else if path == "/secure-channel/key" { (200, sc.key_body) }
+                                    else if path.ends_with("/key-attestation") { (sc.attest_status, String::new()) }
+                                    else { (404, String::new()) };
+                                Response::builder().status(StatusCode::from_u16(status).unwrap()).header(hyper::header::CONTENT_TYPE, "application/json; charset=utf-8")
+                                    .body(crate::common::hyper_client::full_body(body.into_bytes()))
+                            }});
+                            let _ = http1::Builder::new().serve_connection(TokioIo::new(stream), service).await;
+                        });
+                    }
+                }
+            }
+        });
+        port
+    }
+    fn keeper(port: u16, root: &Path, token: CancellationToken) -> KeyKeeper {
+        KeyKeeper { base_url: format!("http://127.0.0.1:{}/", port).parse().unwrap(), key_dir: root.join("Keys"), log_dir: root.join("Logs"), interval: Duration::from_millis(10),
+            cancellation_token: token, key_keeper_shared_state: crate::key_keeper::KeyKeeperSharedState::start_new(), telemetry_shared_state: crate::key_keeper::TelemetrySharedState::start_new(),
+            redirector_shared_state: crate::key_keeper::RedirectorSharedState::start_new(), provision_shared_state: crate::key_keeper::ProvisionSharedState::start_new(),
+            agent_status_shared_state: crate::key_keeper::AgentStatusSharedState::start_new() }
+    }
+    fn scan(dir: &Path, skip: &Path, needles: &[&str], found: &mut Vec<String>) {
+        if dir == skip { return; }
+        if let Ok(entries) = std::fs::read_dir(dir) { for e in entries.flatten() { let p = e.path();
+            if p.is_dir() { scan(&p, skip, needles, found); }
+            else if let Ok(data) = std::fs::read(&p) { let t = String::from_utf8_lossy(&data); for n in needles { if t.contains(n) { found.push(format!("{} contains {}", p.display(), n)); } } } } }
+    }
+    /// run the loop for `millis`, applying `mid` to the host script half way; returns every place a needle was seen
+    async fn observe(name: &str, first: Script, mid: Option<Script>, needles: &[&str], millis: u64, pre: impl FnOnce(&Path)) -> (Vec<String>, PathBuf) {
+        let root = std::env::temp_dir().join(format!("verif_c12_{}_{}", name, std::process::id()));
+        let _ = std::fs::remove_dir_all(&root);
+        std::fs::create_dir_all(&root).unwrap();
+        pre(&root);
+        let token = CancellationToken::new();
+        let script = Arc::new(Mutex::new(first));
+        let port = start_host(script.clone(), token.clone()).await;
+        let kk = keeper(port, &root, token.clone());
+        tokio::spawn({ let kk = kk.clone(); async move { kk.poll_secure_channel_status().await } });
+        tokio::time::sleep(Duration::from_millis(millis / 2)).await;
+        if let Some(m) = mid { *script.lock().unwrap() = m; }
+        tokio::time::sleep(Duration::from_millis(millis / 2)).await;
+        let mut found = Vec::new();
+        let msg = kk.agent_status_shared_state.get_module_status(crate::shared_state::agent_status_wrapper::AgentStatusModule::KeyKeeper).await.message;
+        for n in needles { if msg.contains(n) { found.push(format!("KeyKeeper status message contains {}: {}", n, msg)); } }
+        token.cancel();
+        tokio::time::sleep(Duration::from_millis(50)).await;
+        scan(&root, &root.join("Keys"), needles, &mut found);
+        scan(&std::env::temp_dir().join("proxy_agent_test"), Path::new("/nonexistent"), needles, &mut found);
+        (found, root)
+    }
+    const K1: &str = "C0FFEE12C0FFEE12C0FFEE12C0FFEE12C0FFEE12C0FFEE12C0FFEE12C0FFEEA1";
+    const K2: &str = "BADC0DE2BADC0DE2BADC0DE2BADC0DE2BADC0DE2BADC0DE2BADC0DE2BADC0DE2";
+    const NONHEX: &str = "ZZ-not-hex-SECRET-KEY-MATERIAL-0123456789";
+
+    #[tokio::test(flavor = "multi_thread", worker_threads = 2)]
+    async fn c12_loop_attest_refused_key_stays_in_the_store() {
+        let (found, root) = observe("refused", Script { status_body: status_doc(None), key_body: key_doc(G1, K1), attest_status: 503 }, None, &[K1], 600, |_| {}).await;
+        let _ = std::fs::remove_dir_all(&root);
+        assert!(found.is_empty(), "a host that refuses the attestation makes the key value visible: {:?}", found);
+    }
+    #[tokio::test(flavor = "multi_thread", worker_threads = 2)]
+    async fn c12_loop_latch_and_rotation_keys_stay_in_the_store() {
+        let (found, root) = observe("rotate", Script { status_body: status_doc(None), key_body: key_doc(G1, K1), attest_status: 200 },
+            Some(Script { status_body: status_doc(Some(G2)), key_body: key_doc(G2, K2), attest_status: 200 }), &[K1, K2], 1200, |_| {}).await;
+        let rotated = root.join("Keys").join(format!("{}.key", G2)).exists();
+        let _ = std::fs::remove_dir_all(&root);
+        assert!(rotated, "HARNESS the rotation did not happen");
+        assert!(found.is_empty(), "latching / rotating the key makes a key value visible: {:?}", found);
+    }
+    #[tokio::test(flavor = "multi_thread", worker_threads = 2)]
+    async fn c12_doc_loop_unparsable_key_documents_stay_out_of_logs_and_status() {
+        let bad1 = format!(r#"{{"authorizationScheme":"Azure-HMAC-SHA256","incarnationId":"one","guid":"{}","issued":"x","key":"{}"}}"#, G1, K1);
+        let bad2 = format!(r#"{{"authorizationScheme":"Azure-HMAC-SHA256","guid":"{}","issued":"x","key":"{}""#, G1, K2);
+        let (found, root) = observe("baddoc", Script { status_body: status_doc(None), key_body: bad1, attest_status: 200 },
+            Some(Script { status_body: status_doc(None), key_body: bad2, attest_status: 200 }), &[K1, K2], 800, |_| {}).await;
+        let _ = std::fs::remove_dir_all(&root);
+        assert!(found.is_empty(), "a key document the agent cannot parse makes the key value visible: {:?}", found);
+    }
+    #[tokio::test(flavor = "multi_thread", worker_threads = 2)]
+    async fn c12_hex_loop_non_hex_key_stays_out_of_logs_and_status() {
+        let (found, root) = observe("nonhex", Script { status_body: status_doc(None), key_body: key_doc(G1, NONHEX), attest_status: 200 }, None, &[NONHEX], 600, |_| {}).await;
+        let _ = std::fs::remove_dir_all(&root);
+        assert!(found.is_empty(), "a key that is not valid hex is echoed: {:?}", found);
+    }
+    #[tokio::test(flavor = "multi_thread", worker_threads = 2)]
+    async fn c12_keydir_existing_loose_folder_is_restricted_before_the_first_key_file() {
+        let (_found, root) = observe("keydir", Script { status_body: status_doc(None), key_body: key_doc(G1, K1), attest_status: 200 }, None, &[K1], 600,
+            |root| { let d = root.join("Keys"); std::fs::create_dir_all(&d).unwrap(); std::fs::set_permissions(&d, std::fs::Permissions::from_mode(0o755)).unwrap(); }).await;
+        let has_key = root.join("Keys").join(format!("{}.key", G1)).exists();
+        let mode = std::fs::metadata(root.join("Keys")).map(|m| m.permissions().mode() & 0o777).unwrap_or(0);
+        let _ = std::fs::remove_dir_all(&root);
+        assert!(has_key, "HARNESS no key file was written");
+        assert_eq!(0o700, mode, "the key folder has mode {:o} while it holds a key file", mode);
+    }
+}
+'''
+
 BATTERIES = {
     "C08": [("proxy_agent_shared", [("proxy_agent_shared/src/misc_helpers.rs", C08_SHARED)], "verif_battery_c08_file", False),
             ("azure-proxy-agent", [("proxy_agent/src/key_keeper.rs", C08_AGENT)], "verif_battery_c08_key", True)],
     "C09": [("azure-proxy-agent", [("proxy_agent/src/key_keeper/key.rs", C09_KEY), ("proxy_agent/src/shared_state/key_keeper_wrapper.rs", C09_WRAPPER)], "verif_battery_c09", True)],
     "C12": [("azure-proxy-agent", [("proxy_agent/src/common/helpers.rs", C12_HELPERS), ("proxy_agent/src/key_keeper/key.rs", C12_KEY),
-                                   ("proxy_agent/src/host_clients/wire_server_client.rs", C12_WIRE)], "verif_battery_c12", True)],
+                                   ("proxy_agent/src/host_clients/wire_server_client.rs", C12_WIRE), ("proxy_agent/src/key_keeper.rs", C12_LOOP)], "verif_battery_c12", True)],
     "C17": [("proxy_agent_setup", [("proxy_agent_setup/tests/verif_roundtrip.rs", C17_ROUNDTRIP)], "c17_", False, ["--release", "--test", "verif_roundtrip"])],
-    "C19": [("proxy_agent_shared", [("proxy_agent_shared/src/logger/rolling_logger.rs", C19_SHARED)], "verif_battery_c19_log", False),
+    "C19": [("proxy_agent_shared", [("proxy_agent_shared/src/logger/rolling_logger.rs", C19_SHARED + C19_RESTART)], "verif_battery_c19_", False),
+            ("proxy_agent_shared", [("proxy_agent_shared/src/telemetry/event_logger.rs", C19_EVENTS)], "verif_battery_c19_events", False),
             ("azure-proxy-agent", [("proxy_agent/src/proxy/authorization_rules.rs", C19_AGENT)], "verif_battery_c19_dumps", True)],
 }
 
@@ -390,8 +582,13 @@ def confirm(rep, pid):
         mine = failed
         if pid == "C12":
             # a replay confirms the violations of its own carrier only: c12_hex_* the Error::Hex echo, c12_doc_* the echoed key document
-            want = "c12_hex_" if "Hex" in (q.key or "") else ("c12_doc_" if "key-document" in (q.key or "") else "c12_none_")
-            mine = [f for f in failed if f.startswith(want)]
+            k = q.key or ""
+            wants = ["c12_hex_"] if "Hex" in k else (["c12_doc_"] if "key-document" in k else [])
+            if k.startswith("C12.keydir"):
+                wants = ["c12_keydir_"]
+            elif ":loop_poll->" in k and "Hex" not in k and "key-document" not in k:
+                wants = ["c12_loop_"]          # any other leak inside the poll loop: the sink-level runs of the real loop
+            mine = [f for f in failed if any(f.startswith(w) for w in wants)]
             if not mine:
                 if ran:
                     q.detail += " || no native replay for this flow: reported from the symbolic trace"
